@@ -23,6 +23,7 @@ BASES = [
     "http://u@example.com/a.b.c", "http://:p@example.com/.hidden", "http://bücher.example/straße", "ws://h:0/",
     "http://[fe80::1%25eth0]:80/", "http://1.2.3.4/a/", "http://example.com./a", "http://example.com/a;p=1/b;q",
     "http://example.com/%2E%2E/x", "http://example.com/a+b%2Bc?d+e=%2B", "http://h/a?", "http://h/a/..", "svn+ssh://h/r",
+    "http://h/a%2Fb", "http://h/a%25b/c%2Fd", "http://h/a%2fb", "http://example.com.:8080/path", "http://[fe80::1%25Ethernet%202]:8080/x",
 ]
 
 
@@ -98,7 +99,7 @@ def rnd_qarg(rnd, forms=("str", "mapping", "multidict", "pairs", "tuplepairs", "
         if f == "kwargs" and (not k or not isinstance(k, str)):
             k = "k"
         if typed and rnd.random() < 0.4:
-            v = rnd.choice([0, -1, 10 ** 9, 1.5, 1e100, 1e16, -2.5e20, 1e-7, float("nan"), float("inf"), float("-inf"), True, False, None, b"x", -0.0,
+            v = rnd.choice([0, -1, 10 ** 9, 1.5, 1e100, 1e16, -2.5e20, 1e-7, float("nan"), float("inf"), float("-inf"), True, False, None, b"x", -0.0, 0.0, 0, -0.0, 0.0,
                             [1, "x"], ["a", "b"], (), [], (1.5, 2)])
         elif f in ("mapping", "multidict") and rnd.random() < 0.2:
             v = [text(rnd, 1), text(rnd, 1)]
